@@ -1,6 +1,7 @@
 #!/bin/bash
 # usage: try_mutant.sh <patch.diff> <Cxx> [Cyy...] : applies the patch to /repo, runs the quick checks, reverts.
 P=$1; shift
+export VERIF_OUT=/verif/scratch/mutant_out; mkdir -p $VERIF_OUT   # keep the committed evidence/ for runs on the unchanged tree
 cd /repo && git status --short | grep -v '^??' && { echo "repo dirty"; exit 2; }
 git -C /repo apply "$P" || { echo "patch does not apply"; exit 2; }
 for c in "$@"; do
